@@ -5,7 +5,7 @@
     instance on every run. *)
 From Coq Require Import NArith ZArith QArith Qabs List Bool.
 From SV Require Import Bin.Struct Fmt.DmxCodes Fmt.DmxCodesProofs Fmt.DmxBin Fmt.DmxBinProofs Fmt.DmxKv1 Fmt.DmxKv1Proofs
-  Fmt.DmxScalar Fmt.DmxScalarProofs Fmt.DmxTyped Fmt.DmxTypedProofs Text.Str Text.Escape Text.Tokenizer Text.TokGen Fmt.DmxKv2 Fmt.DmxKv2Proofs Fmt.DmxKv2Nested Fmt.DmxKv2NestedProofs Fmt.DmxKv2Inst Num.Dec6 Fmt.DmxValText Fmt.DmxValTextProofs Fmt.DmxHeader Fmt.DmxHeaderProofs Fmt.DmxMembers Fmt.DmxMembersProofs Fmt.DmxMembersParse Fmt.DmxMembersParseProofs Fmt.DmxMembersKv2 Fmt.DmxMembersKv2Proofs Fmt.DmxKv1Sel Fmt.DmxKv1SelProofs Fmt.DmxKv2Graph Fmt.DmxKv2GraphProofs Fmt.DmxKv2GraphUnique Fmt.DmxKv2GraphFuel Fmt.DmxKv2GraphCull Fmt.DmxKv2GraphLink Fmt.DmxKv2GraphWhole Fmt.DmxPropertyBin Fmt.DmxPropertyKv2 Fmt.DmxKv2GraphIso Gen.DmxCodes_gen.
+  Fmt.DmxScalar Fmt.DmxScalarProofs Fmt.DmxTyped Fmt.DmxTypedProofs Text.Str Text.Escape Text.Tokenizer Text.TokGen Fmt.DmxKv2 Fmt.DmxKv2Proofs Fmt.DmxKv2Nested Fmt.DmxKv2NestedProofs Fmt.DmxKv2Inst Num.Dec6 Fmt.DmxValText Fmt.DmxValTextProofs Fmt.DmxHeader Fmt.DmxHeaderProofs Fmt.DmxMembers Fmt.DmxMembersProofs Fmt.DmxMembersParse Fmt.DmxMembersParseProofs Fmt.DmxMembersKv2 Fmt.DmxMembersKv2Proofs Fmt.DmxKv1Sel Fmt.DmxKv1SelProofs Fmt.DmxKv2Graph Fmt.DmxKv2GraphProofs Fmt.DmxKv2GraphUnique Fmt.DmxKv2GraphFuel Fmt.DmxKv2GraphCull Fmt.DmxKv2GraphLink Fmt.DmxKv2GraphWhole Fmt.DmxPropertyBin Fmt.DmxPropertyKv2 Fmt.DmxKv2GraphIso Fmt.DmxKv2GraphCullIds Gen.DmxCodes_gen.
 Import ListNotations.
 
 (** The premises of the theorems below, for the configuration generated from today's source.  The check proves
@@ -763,3 +763,30 @@ Proof. exact iso_example. Qed.
     nested-layout case of the correspondence: when it answers [true] the two graphs are isomorphic by that renumbering. *)
 Theorem kv2_graph_iso_test_sound : forall s g g', graph_iso_b s g g' = true -> graph_iso s g g'.
 Proof. exact graph_iso_b_sound. Qed.
+
+(** * [cull_uuid]: what the option loses (round 5) *)
+
+(** The tree of blocks written with [cull_uuid] does not depend on the ids of the elements written inline: for any root
+    predicate, two graphs with the same types, names and attributes (references included) element by element and the same
+    ids for the roots have the same culled export. *)
+Theorem kv2_culled_export_ignores_inline_ids : forall (isroot : nat -> bool) (g g2 : gdoc),
+  differs_in_inline_ids isroot g g2 -> nest_doc g isroot true = nest_doc g2 isroot true.
+Proof. exact culled_export_ignores_inline_ids. Qed.
+
+(** Hence it is the erasure of the unculled tree of any of these graphs: the reader, which gives every block without id
+    line a fresh UUID, returns one of them (that step — a fresh UUID per id-less block — is not modelled; the text
+    correspondence and the oracle compare the structure). *)
+Theorem kv2_culled_export_is_erasure_of_either : forall (isroot : nat -> bool) (g g2 : gdoc),
+  differs_in_inline_ids isroot g g2 ->
+  nest_doc g isroot true = option_map (map (erase_elem true)) (nest_doc g2 isroot false).
+Proof. exact culled_export_is_erasure_of_either. Qed.
+
+(** Example: [ex_graph] with other ids for its two inline elements has the same culled text and another unculled text. *)
+Theorem kv2_culled_export_example :
+  differs_in_inline_ids (ex_isroot pinned_rootcfg ex_graph) ex_graph ex_graph_relabelled /\
+  (let r := ex_isroot pinned_rootcfg ex_graph in
+   map r [0; 1; 2; 3]%nat = [true; true; false; false] /\
+   ondoc_same (nest_doc ex_graph r true) (nest_doc ex_graph_relabelled r true) = true /\
+   ondoc_same (nest_doc ex_graph r false) (nest_doc ex_graph_relabelled r false) = false /\
+   match nest_doc ex_graph r true with Some d => negb (str_eqb (rendern_doc pinned_tables d) []) | None => false end = true).
+Proof. exact (conj ex_graph_relabelled_differs culled_export_example). Qed.
